@@ -397,8 +397,27 @@ func (tw *tokenWorld) userinfo(ch *kernel.Chooser) string {
 	}
 	id, sub, _, decodes := w.DecodeAccess(tok)
 	live := decodes && w.Store.TokenLive(id)
+	torn := tw.prop == "C08" && ch.Bool(1, 8)
+	if torn {
+		fired := false
+		w.Store.Inject = func(n int, method string, rid int) string {
+			if method == "SetUserinfoFromToken" && !fired {
+				fired = true
+				tw.o.Fault(world.FaultTorn)
+				return world.FaultTorn
+			}
+			return ""
+		}
+	}
 	r := bearerGet(w, "/userinfo", tok)
-	desc := fmt.Sprintf("userinfo with %s token of %s (live=%v) -> %d", kind, g.client, live, statusOf(r))
+	w.Store.Inject = nil
+	desc := fmt.Sprintf("userinfo with %s token of %s (live=%v torn=%v) -> %d", kind, g.client, live, torn, statusOf(r))
+	if torn && r.Ex != nil && r.Ex.Panic == "" {
+		if r.Status == 200 || strings.Contains(r.Body, "@sim") {
+			tw.viol("C08", "dead-token-honoured", "userinfo-torn", "%s: claims disclosed although the storage call failed: %s", desc, firstLine(r.Body))
+		}
+		return desc
+	}
 	if panicProbe(tw.o, r) || r.Err != nil {
 		return desc
 	}
@@ -445,8 +464,21 @@ func (tw *tokenWorld) introspect(ch *kernel.Chooser) string {
 	}
 	id, _, _, decodes := w.DecodeAccess(tok)
 	live := decodes && w.Store.TokenLive(id)
+	torn := tw.prop == "C08" && ch.Bool(1, 6)
+	if torn { // the storage fills the response partially and then fails
+		fired := false
+		w.Store.Inject = func(n int, method string, rid int) string {
+			if method == "SetIntrospectionFromToken" && !fired {
+				fired = true
+				tw.o.Fault(world.FaultTorn)
+				return world.FaultTorn
+			}
+			return ""
+		}
+	}
 	r := w.PostForm("/oauth/introspect", url.Values{"token": {tok}}, p.creds)
-	desc := fmt.Sprintf("introspect %s token of %s by %s (%s) live=%v -> %d", kind, g.client, caller, p.label, live, statusOf(r))
+	w.Store.Inject = nil
+	desc := fmt.Sprintf("introspect %s token of %s by %s (%s) live=%v torn=%v -> %d", kind, g.client, caller, p.label, live, torn, statusOf(r))
 	if panicProbe(tw.o, r) || r.Err != nil {
 		return desc
 	}
@@ -467,6 +499,9 @@ func (tw *tokenWorld) introspect(ch *kernel.Chooser) string {
 		return desc + " inactive"
 	}
 	tw.o.Probe("introspect-active")
+	if torn {
+		tw.viol("C08", "dead-token-honoured", "introspect-torn", "%s: active:true although the storage call failed", desc)
+	}
 	t := w.Store.TokenSnapshot(id)
 	if !live || t == nil {
 		tw.viol("C08", "dead-token-honoured", "introspect", "%s: active:true for a token that is not live", desc)
